@@ -5,11 +5,11 @@ PROP = dict(
     family="offsets", harness="offsets", run_vo="Run/Offsets.vo",
     theorems=["C04_spec_sound", "C04_static_table_ok", "C04_input_repr_table_ok", "C04_output_repr_table_ok",
               "C04_locates_tx_static", "C04_locates_input_static", "C04_locates_output",
-              "C04_none_tx", "C04_none_input", "C04_none_output"],
+              "C04_none_tx", "C04_none_input", "C04_none_output",
+              "C04_locates_sections", "C04_locates_elements", "C04_locates_script"],
     open_statements=[
-        "C04_locates_dynamic_statement: the value-dependent transaction offsets (script, script data, storage slots, proof set, policies/body end, inputs, outputs, witnesses) equal the "
-        "specification's prefix-sum positions when the encoding is shorter than 2^64 (no usize saturation) - not proved; executed on every correspondence case (Run/Offsets.v statement_holds)",
-        "C04_locates_elements_statement: *_offset_at(i) of inputs / outputs / witnesses / storage slots / proof entries - not proved; executed on every case",
+        "C04_locates_body_vectors_statement: storage_slots_offset_at / proof_set_offset_at (and the two vector starts) = the specification's positions - not proved; executed on every correspondence case",
+        "C04_locates_input_dynamic_statement: the value-dependent offsets inside an input (data, predicate, predicate data; relative to the input) - not proved; executed on every case",
         "C04_predicate_padded_statement: inputs_predicate_offset_at(i) = (position of the predicate bytes, 8-padded length) - not proved; executed on every case",
         "C04_cached_statement: answers read from cached CommonMetadata = answers computed without it - not proved; executed on every case (check_off) and checked on the real code by the oracle",
     ],
@@ -26,7 +26,7 @@ PROP = dict(
     ],
     assumptions=[
         "typed: the value is a value of the Rust type",
-        "open statements are claimed only under `encoding shorter than 2^64 bytes` (the saturating arithmetic of the offset code is modelled, the saturated regime is exercised by neither proof nor run)",
+        "C04_locates_sections / _elements / _script and the open statements hold under `encoding at most 2^64-1 bytes long` (the saturating arithmetic of the offset code is modelled; in the saturated regime the offsets are wrong by construction and no encoding of that size exists in memory)",
     ],
     rule=("transactions of all six kinds x four input layouts (the named one: contract input then message-data predicate after a 7-byte script; every input variant once with every output variant; "
           "unaligned predicates 7/3, 9/0, 1/15 with 13-byte data; random 0-4 inputs) with 0-4 outputs, 1-4 witnesses, 0-4 storage slots, 0-5 proof entries, all 64 policy masks, byte-vector lengths "
@@ -38,10 +38,12 @@ PROP = dict(
     level_text=("Machine-checked proof (Coq): (1) generic soundness of the specification - for every schema, value and field selector the prefix-sum position holds exactly the field's canonical bytes "
                 "(induction over the schema universe); (2) the layout constants and decision tables regenerated from the Rust source on every check (static offset chains of the six kinds, InputRepr, "
                 "OutputRepr) are proved equal to the schemas' prefix sums for every typed value - so every static field of a transaction, input and output is located exactly, and None is reported "
-                "exactly for absent fields; (3) the value-dependent offsets are modelled function by function with explicit usize arithmetic, tied by a differential run that also executes the "
-                "statement on every answer; their proof is open."),
-    level_note=("10 theorems proved, Closed under the global context. Open: the four statements about value-dependent offsets and cached metadata (executed per case, checked on the real code by the oracle, "
-                "not proved)."),
+                "exactly for absent fields; (3) for the five chargeable kinds the value-dependent section offsets (policies/body end, inputs, outputs, witnesses), every "
+                "input / output / witness element offset (Some exactly for indices in range) and the script / script data offsets are proved to be the specification's positions whenever the encoding is "
+                "shorter than 2^64 bytes - the model's saturating sums of size() are shown to be the prefix sums of encoder lengths; (4) the remaining value-dependent offsets (storage slots, proof "
+                "entries, offsets inside an input, predicate offset+padded length, cached metadata) are modelled, executed on every answer, and open."),
+    level_note=("13 theorems proved, Closed under the global context. Open: four statements (storage-slot / proof-entry offsets, offsets inside an input, predicate offset + padded length, cached = uncached), "
+                "executed per case and checked on the real code by the oracle, not proved."),
     technique="Coq proof (generic induction over the schema universe; table-vs-schema obligations by computation + value-independence lemma) + translator consts/tables with source pins + differential model/impl run + slice oracle",
     design_ref="6/C04",
     quick_shards=8,
